@@ -96,9 +96,10 @@ Definition name_suffix (name : string) : string :=
 Definition parts_suffix (parts : list string) : string := name_suffix (last parts "").
 
 (* ---------- the gates of Orchestrator.lint_file, in source order *)
-Inductive gate := GHard | GIgnored | GOther.
+(* GHard: _is_hardcoded_excluded on the path inside the project; GHardAbs: on the path as given (parents included) *)
+Inductive gate := GHard | GHardAbs | GIgnored | GOther.
 Definition gate_eqb (a b : gate) : bool :=
-  match a, b with GHard, GHard | GIgnored, GIgnored | GOther, GOther => true | _, _ => false end.
+  match a, b with GHard, GHard | GHardAbs, GHardAbs | GIgnored, GIgnored | GOther, GOther => true | _, _ => false end.
 
 (* pattern[k:] *)
 Definition sdrop (k : nat) (s : string) : string := sa (skipn k (la s)).
